@@ -17,7 +17,14 @@ run_demo() { mkdir -p $(dirname $demo_dst); cp "$out/demo$n.rs" $demo_dst; cargo
 run_demo; clean_rc=$?
 git apply "$out/patch$n.diff" || { echo "$pid-$n: patch does not apply"; exit 2; }
 cargo test --workspace --no-fail-fast --offline >"$log.suite" 2>&1
-suite_fail=$(grep -E "^test .* FAILED" "$log.suite" | grep -v "token::tests::basic" | grep -v " - (line" | wc -l)
+# failures of the pinned suite: doctests are not part of it, token::tests::basic is flaky in the baseline;
+# a test that fails under load (1 ms default time limit) is retried alone three times
+suite_fail=0
+for t in $(grep -E "^test .* \.\.\. FAILED" "$log.suite" | grep -v "token::tests::basic" | grep -v " - (line" | awk '{print $2}'); do
+  ok=0
+  for k in 1 2 3; do cargo test --offline -p biscuit-auth --lib "$t" -- --exact >>"$log" 2>&1 && ok=1 && break; done
+  [ $ok -eq 0 ] && suite_fail=$((suite_fail+1))
+done
 suite_ok=$(grep -c "^test result: ok" "$log.suite")
 run_demo; mut_rc=$?
 git checkout -q -- . ; git clean -qfd -e target
